@@ -40,6 +40,17 @@ def _uf_abstract(*args, name, out_avals):
 uf_p.def_abstract_eval(_uf_abstract)
 
 
+def _register_sqrt(x, s):
+    """the defining fact of an Ackermannised square root travels with its symbol: the harness adds it to every query
+    in which the symbol occurs (an obligation that forgets `sound_facts()` would otherwise see an unconstrained value)"""
+    try:
+        if z3.is_expr(s) and z3.is_const(s):
+            X = sym.zr(x)
+            sym.CTX.defs[s.decl().name()] = z3.Implies(X >= 0, z3.And(s >= 0, s * s == X))
+    except Exception:
+        pass
+
+
 UF_PLAYBACK = []  # replay only: the values the k-th eager call of an opaque function returns (set by Encoded.real_outputs)
 
 
@@ -445,7 +456,7 @@ class Interp:
                         return Fl(r, Fraction(math.isqrt(num), math.isqrt(den)))
                 return sym.from_native(r, inexact=True)
             s = self._ack("sqrt", x, False)
-            self.sqrt_facts.append((x, s)); sym._SQRT_OF[s.get_id()] = (s, sym.zr(x))
+            self.sqrt_facts.append((x, s)); sym._SQRT_OF[s.get_id()] = (s, sym.zr(x)); _register_sqrt(x, s)
             return s
 
         out = emap(f, a)
@@ -469,10 +480,11 @@ class Interp:
             y = sym.asfl(y)
             if isinstance(y.ex, Fraction) and y.ex.denominator == 1 and abs(y.ex) <= 12:
                 return sym.pow_int(x, int(y.ex), odt)
-            if isinstance(y.ex, Fraction) and y.ex == Fraction(1, 2) and not isinstance(x, Cx):
+            if isinstance(y.ex, Fraction) and y.ex.denominator == 2 and abs(y.ex) <= 12 and not isinstance(x, Cx):
+                # x^(n/2) = sqrt(x)^n (real x >= 0; the Ackermannised sqrt carries s >= 0, s^2 = x)
                 s = self._ack("sqrt", x, False)
-                self.sqrt_facts.append((x, s)); sym._SQRT_OF[s.get_id()] = (s, sym.zr(x))
-                return s
+                self.sqrt_facts.append((x, s)); sym._SQRT_OF[s.get_id()] = (s, sym.zr(x)); _register_sqrt(x, s)
+                return s if y.ex == Fraction(1, 2) else sym.pow_int(s, int(y.ex.numerator), odt)
             raise EncodingError(f"pow with exponent {y}")
 
         return [emap(f, a, b)]
@@ -527,7 +539,7 @@ class Interp:
                     return sym.from_native(abs(complex(x.re.nat, x.im.nat)), inexact=True)
                 m2 = sym.cabs2(x, odt)
                 s = self._ack("sqrt", m2, False)
-                self.sqrt_facts.append((m2, s)); sym._SQRT_OF[s.get_id()] = (s, sym.zr(m2))
+                self.sqrt_facts.append((m2, s)); sym._SQRT_OF[s.get_id()] = (s, sym.zr(m2)); _register_sqrt(m2, s)
                 return s
 
             out = emap(f, a)
@@ -575,8 +587,8 @@ class Interp:
                 return [emap(lambda x: sym.asc(x).re, a)]
 
             def g(x):
-                if isinstance(x, (bool, int)):
-                    return sym.asfl(x)
+                if isinstance(x, (bool, int, np.bool_, np.integer)):
+                    return sym.asfl(int(x) if not isinstance(x, (bool, np.bool_)) else bool(x))
                 if isinstance(x, Fl):
                     nat = sym._round(x.nat, new)
                     return Fl(nat, x.ex, x.ok)
@@ -586,7 +598,7 @@ class Interp:
             return [emap(g, a)]
         if new.kind in "iu":
             if old.kind in "iub":
-                return [emap(lambda x: int(x) if isinstance(x, (bool, int)) else z3.If(x, z3.RealVal(1), z3.RealVal(0)), a)]
+                return [emap(lambda x: int(x) if isinstance(x, (bool, int, np.bool_, np.integer)) else (z3.If(x, z3.RealVal(1), z3.RealVal(0)) if z3.is_bool(x) else x), a)]
             if all_conc(a):
                 return NotImplemented
             raise EncodingError("float->int conversion of symbolic value")
